@@ -11,7 +11,9 @@
 (* each mapping a module name to "unseen" | "module" | "none".             *)
 (*                                                                         *)
 (* A decode request is a sequence of items; an item is one consultation    *)
-(* of a parser module:  [cache, mod, beh]  where beh is what that call     *)
+(* of a parser module:  [cache, mod, beh, plugins]  where plugins says     *)
+(* whether parser modules are enabled for this decode (the option          *)
+(* --skip-parser-plugins turns them off) and beh is what that call         *)
 (* will do ("absent": no such module; "ok" | "nondict" | "none" | "raise"  *)
 (* | "importerror": behaviour of the module's function for this section).  *)
 (*                                                                         *)
@@ -24,6 +26,9 @@
 (* wrapper's cache keyed by the component of the reference code instead of *)
 (* the resolved module name - a BC code and a BD code of one component     *)
 (* then share a slot (m1 and m2 stand for such a pair).                    *)
+(* "plugins_on_miss_only": the plugins switch honoured only when the       *)
+(* module is not cached yet - a decode with plugins disabled then runs a   *)
+(* module that an earlier decode loaded.                                   *)
 (***************************************************************************)
 EXTENDS Naturals, Sequences, FiniteSets
 
@@ -33,7 +38,7 @@ CONSTANTS Mods,            \* module names that exist
           MaxHistory
 
 Caches == {"ud", "src", "co", "osrc"}
-Behs == {"ok", "nondict", "none", "raise", "importerror"}
+Behs == {"ok", "nondict", "none", "raise", "raise_empty", "importerror"}
 Names == Mods \cup Absent
 
 \* what the statement says an item yields - no cache in sight
@@ -49,7 +54,7 @@ RuleResult(it) ==
                  (CASE it.beh \in {"ok", "nondict"} -> "plugin"
                     [] OTHER -> "nodetails")
 RuleAbsent(it) == IF it.cache = "ud" THEN "dump" ELSE "nodetails"
-Rule(it) == IF it.mod \in Absent THEN RuleAbsent(it) ELSE RuleResult(it)
+Rule(it) == IF ~it.plugins \/ it.mod \in Absent THEN RuleAbsent(it) ELSE RuleResult(it)
 
 VARIABLES cache,        \* [Caches -> [Names -> {"unseen", "module", "none"}]]
           hist,         \* number of items decoded so far
@@ -57,17 +62,17 @@ VARIABLES cache,        \* [Caches -> [Names -> {"unseen", "module", "none"}]]
           lastResult    \* what the implementation produced for it
 vars == <<cache, hist, last, lastResult>>
 
-Items == [cache : Caches, mod : Names, beh : Behs]
+Items == [cache : Caches, mod : Names, beh : Behs, plugins : BOOLEAN]
 
 Init == /\ cache = [c \in Caches |-> [n \in Names |-> "unseen"]]
         /\ hist = 0
-        /\ last = [cache |-> "ud", mod |-> CHOOSE n \in Names : TRUE, beh |-> "ok"]
+        /\ last = [cache |-> "ud", mod |-> CHOOSE n \in Names : TRUE, beh |-> "ok", plugins |-> TRUE]
         /\ lastResult = "none yet"
 
 Poisons(it) ==           \* does a failing CALL mark the module as missing?
     /\ Variant = "asfound"
     /\ \/ it.cache = "ud" /\ it.beh = "importerror"
-       \/ it.cache = "co" /\ it.beh \in {"raise", "importerror"}
+       \/ it.cache = "co" /\ it.beh \in {"raise", "raise_empty", "importerror"}
 
 \* the slot of the cache an item uses: the module name - except in the deviation where the BMC
 \* wrapper keys by component and the two modules of one component (m1, m2) share m1's slot
@@ -79,7 +84,9 @@ ImplStep(it, c) ==
     LET k == Key(it)
         st == c[it.cache][k]
         missing == RuleAbsent(it)
-    IN  IF st = "none" THEN [result |-> missing, cache |-> c]
+    IN  IF ~it.plugins /\ ~(Variant = "plugins_on_miss_only" /\ st = "module")
+        THEN [result |-> missing, cache |-> c]             \* parser modules disabled: nothing is consulted
+        ELSE IF st = "none" THEN [result |-> missing, cache |-> c]
         ELSE IF it.mod \in Absent
              THEN [result |-> missing, cache |-> [c EXCEPT ![it.cache][k] = "none"]]
         ELSE LET c1 == [c EXCEPT ![it.cache][k] = "module"] IN
@@ -106,6 +113,6 @@ HistoryIndependent == hist > 0 => lastResult = Rule(last)
 \* a module that exists is never remembered as missing
 NoPoisoning == \A c \in Caches : \A m \in Mods : cache[c][m] # "none"
 \* a failing parser gets its error note (C18: "error note plus raw hex dump")
-ErrorNoted == (hist > 0 /\ last.cache = "ud" /\ last.mod \in Mods /\ last.beh \in {"none", "raise", "importerror"})
+ErrorNoted == (hist > 0 /\ last.plugins /\ last.cache = "ud" /\ last.mod \in Mods /\ last.beh \in {"none", "raise", "raise_empty", "importerror"})
                  => lastResult = "dump+error"
 =============================================================================
